@@ -6,7 +6,7 @@
     statement about [run sched (init ...)] for all [sched] is a statement about every
     reachable configuration. *)
 From GV Require Export Conc.Ops Conc.Run.
-From GV Require Export Conc.ProofsSem Conc.ProofsIds Conc.ProofsTm Conc.ProofsBuf Conc.ProofsRdf Conc.ProofsLock Conc.ProofsSeq.
+From GV Require Export Conc.ProofsSem Conc.ProofsIds Conc.ProofsTm Conc.ProofsBuf Conc.ProofsRdf Conc.ProofsLock Conc.ProofsSeq Conc.ProofsAll.
 From Coq Require Import ZArith List Bool Sorted.
 Import ListNotations.
 Open Scope Z_scope.
@@ -166,6 +166,37 @@ Theorem wal_log_complete : forall progs sched,
 Proof. exact wal_log_complete_l. Qed.
 Print Assumptions wal_log_complete.
 
+(** exhaustive small scope, proved by computation inside Coq ([forall_scheds] walks the whole tree of
+    schedules): the domain is the finite table of operation templates / programs that the scheduler
+    harness enumerates on the real code.  [lpg_lin_ok] etc. = the cross-checks hold and outputs and
+    final observation are those of SOME sequential order of the operations. *)
+Theorem lpg_pairs_linearizable : forall a b sched,
+  In a lpg_templates -> In b lpg_templates ->
+  k_label [[a]; [b]] = false -> k_edge_torn 2 [[a]; [b]] = false ->
+  let c := grun sched (ginit (gsetup lpg_setup) [[a]; [b]]) in
+  finished c = true -> lpg_lin_ok [[a]; [b]] c = true.
+Proof. exact lpg_pairs_linearizable_l. Qed.
+Print Assumptions lpg_pairs_linearizable.
+
+Theorem rdf_pairs_linearizable : forall a b sched,
+  In a rdf_templates -> In b rdf_templates -> k_rdf [[a]; [b]] = false ->
+  let c := qrun sched (qinit (rdf_of [0; 2]) [[a]; [b]]) in
+  finished c = true -> rdf_lin_ok [[a]; [b]] c = true.
+Proof. exact rdf_pairs_linearizable_l. Qed.
+Print Assumptions rdf_pairs_linearizable.
+
+Theorem tm_programs_linearizable : forall progs sched,
+  In progs tm_programs ->
+  let c := mrun sched (minit progs) in finished c = true -> tm_lin_ok progs c = true.
+Proof. exact tm_programs_linearizable_l. Qed.
+Print Assumptions tm_programs_linearizable.
+
+Theorem buf_programs_linearizable : forall progs sched,
+  In progs buf_programs ->
+  let c := brun sched (binit 10 progs) in finished c = true -> buf_lin_ok progs c = true.
+Proof. exact buf_programs_linearizable_l. Qed.
+Print Assumptions buf_programs_linearizable.
+
 (** non-vacuity: the hypotheses are met by contended programs, and complete runs exist *)
 Example nv_safe_contended :
   safe_progs [[BAlloc 0 6; BRelease 0]; [BAlloc 1 6; BRelease 1]] = true /\
@@ -189,6 +220,10 @@ Proof. split; [reflexivity|]. split; [intros k H; destruct H|vm_compute; reflexi
 Example nv_disciplined : Forall (fun p => disciplined p = true) [gtrace (GDeleteNode 0); gtrace (GCreateNode [1]); mtrace (MCommitOp 0)]
   /\ In (gtrace (GDeleteNode 0)) table_traces.
 Proof. split; [repeat constructor|vm_compute; tauto]. Qed.
+Example nv_pairs : In (GAddLabel 0 2) lpg_templates /\ In (GCreateEdge 0 1) lpg_templates /\
+  k_label [[GAddLabel 0 2]; [GCreateEdge 0 1]] = false /\ k_edge_torn 2 [[GAddLabel 0 2]; [GCreateEdge 0 1]] = false /\
+  finished (grun (round_robin 2 6) (ginit (gsetup lpg_setup) [[GAddLabel 0 2]; [GCreateEdge 0 1]])) = true.
+Proof. vm_compute. tauto. Qed.
 Example nv_commits :
   let c := mrun (round_robin 2 10) (minit [[MBegin 0; MCommitOp 0]; [MBegin 0; MCommitOp 0; MCommitOp 0]]) in
   finished c = true /\ all_commit_epochs c = [1; 2].
